@@ -72,6 +72,9 @@ func round(s *slip.Scope, f slip.Object, args slip.List, depth int) slip.Values 
 	switch tn := num.(type) {
 	case slip.Fixnum:
 		d := div.(slip.Fixnum)
+		if d == 0 {
+			slip.ArithmeticPanic(s, depth, f, args, "divide by zero")
+		}
 		q = tn / d
 		r = tn - q.(slip.Fixnum)*d
 		if r == slip.Fixnum(0) {
